@@ -271,6 +271,9 @@ pub fn replay(info: &LangInfo, case: &Value, oracle: Oracle) -> Vec<String> {
                     if let Err(m) = xtree::check_summaries(&inc) { msgs.push(m); }
                 }
                 Oracle::C04 => {
+                    println!("old tree, edited: {}", XTree::build(&old).sexp_pos(&info.language));
+                    println!("new tree:         {}", XTree::build(&inc).sexp_pos(&info.language));
+                    println!("changed ranges:   {:?}", old.changed_ranges(&inc).map(|r| (r.start_byte, r.end_byte)).collect::<Vec<_>>());
                     let tr = Transition { info, new_text: &new_text, old_edited: &old, inc: &inc };
                     if let Some((fp, m)) = check_c04(&tr) { msgs.push(format!("{}: {}", fp, m)); }
                 }
